@@ -26,7 +26,7 @@ Definition new_log (size : Z) : option rlog :=
   then Some (mk_rlog (fun _ => false) size 0 false 0)
   else None.
 
-(* `pos := seq % s.size`.  size is a power of two (newReceiveLog admits nothing
+(* `pos := seq % s.size`.  size is a power of two (newReceiveLog accepts nothing
    else), so the remainder is the mask seq & (size-1); the model uses the mask
    because Z.land is 20x cheaper than Z.modulo under vm_compute.
    Proofs/ReceiveLogProofs.v, slot_mod: slot sz seq = seq mod sz for every
